@@ -1148,19 +1148,33 @@ def check_chain_cases(res: Result, cases, procs: int = 1) -> None:
 
 
 def gen_nested(rng: common.Rng, case) -> dict[str, Any]:
-    """A process discipline inside the MDAChain: a pre-built inner MDA for one non-trivial group, or an
-    MDOChain of a prefix of the disciplines (the composition must still be the whole system)."""
+    """A process discipline inside the MDAChain: a pre-built inner MDA for one non-trivial group, an MDOChain
+    of one whole group (a self-coupled process: its grammars show the fed-back names as inputs and outputs,
+    the MDAChain has to iterate it), or an MDOChain of a prefix of the disciplines (the composition must
+    still be the whole system)."""
     c = strip(case)
     c["mode"] = "nested"
     c["pre"], c["variant"] = [], []
     n = len(c["discs"])
     sccs = [sorted(x) for x in tarjan(n, edges_of(c["discs"])) if len(x) > 1]
-    if sccs:
+    if sccs and rng.chance(0.5):
         c["nest"] = {"kind": "premda", "group": rng.pick(sccs), "inner": rng.pick(["MDAJacobi", "MDAGaussSeidel"]),
                      "pos": rng.randint(0, n), "par": rng.chance(0.3)}
+    elif sccs:
+        g = list(rng.pick(sccs))
+        if rng.chance(0.5):
+            g.reverse()
+        c["nest"] = {"kind": "selfchain", "group": g, "pos": rng.randint(0, n), "par": rng.chance(0.3)}
     else:
         c["nest"] = {"kind": "subchain", "k": rng.randint(1, max(1, n - 1)), "rev": rng.chance(0.5), "par": rng.chance(0.3)}
     return c
+
+
+def nest_line(case, items: str) -> str:
+    """Protocol line of a nested case; `items` = the listing given to the MDAChain (`P3/C0,1/M2,4`)."""
+    toks = [lin_token(d, l) for d, l in zip(case["discs"], case["lin"])]
+    ext = [f"{k}={v}" for k, v in case["ext"].items()]
+    return f"nest {int(bool(case['nest'].get('par')))} {items} " + " ".join(toks) + " | " + " ".join(ext)
 
 
 def impl_observe_nested(case) -> dict[str, Any]:
@@ -1174,18 +1188,27 @@ def impl_observe_nested(case) -> dict[str, Any]:
     nest = case["nest"]
     obs: dict[str, Any] = {}
     try:
-        if nest["kind"] == "premda":
+        if nest["kind"] in ("premda", "selfchain"):
             g = nest["group"]
-            inner = MDAFactory().create(nest["inner"], [ds[i] for i in g], tolerance=1e-14, max_mda_iter=200)
-            rest = [ds[i] for i in range(len(ds)) if i not in g]
+            if nest["kind"] == "premda":
+                inner = MDAFactory().create(nest["inner"], [ds[i] for i in g], tolerance=1e-14, max_mda_iter=200)
+                tok = ("G" if nest["inner"] == "MDAGaussSeidel" else "M") + ",".join(map(str, g))
+            else:
+                inner = MDOChain([ds[i] for i in g])
+                tok = "C" + ",".join(map(str, g))
+            rest = [i for i in range(len(ds)) if i not in g]
             pos = min(nest["pos"], len(rest))
-            top = rest[:pos] + [inner] + rest[pos:]
+            top = [ds[i] for i in rest[:pos]] + [inner] + [ds[i] for i in rest[pos:]]
+            items = [f"P{i}" for i in rest[:pos]] + [tok] + [f"P{i}" for i in rest[pos:]]
         else:
             k = min(nest["k"], len(ds))
             seq = [d for st in CouplingStructure(ds[:k]).sequence for grp in st for d in grp]
             top = [MDOChain(seq), *ds[k:]]
+            items = ["C" + ",".join(str(_idx(ds, d)) for d in seq)] + [f"P{i}" for i in range(k, len(ds))]
             if nest["rev"]:
                 top = top[::-1]
+                items = items[::-1]
+        obs["items"] = "/".join(items)
         ch = MDAChain(top, tolerance=1e-14, max_mda_iter=200, mdachain_parallelize_tasks=bool(nest.get("par")))
         inp = {k_: np.array([float(Fraction(v))]) for k_, v in case["ext"].items() if k_ in ch.io.input_grammar}
         data = ch.execute(inp)
@@ -1196,6 +1219,15 @@ def impl_observe_nested(case) -> dict[str, Any]:
                 vals[k_] = F(float(v[0])) if np.isfinite(v[0]) else None
         obs["val"] = vals
         obs["line"] = "val=" + ",".join(f"{k_}={'nan' if v is None else rat(v)}" for k_, v in sorted(vals.items()))
+        # the view compared with the Lean model (Driver/C08.lean `nest`)
+        ins = sorted(ch.io.input_grammar)
+        outs = sorted(n_ for n_ in ch.io.output_grammar if n_ != RESIDUAL_NAME)
+        groups = [tuple(_idx(top, d) for d in mda.disciplines) for mda in ch.inner_mdas]
+        mdas = ";".join(",".join(map(str, g_)) for g_ in sorted(groups, key=lambda g_: (min(g_), g_))) or "[]"
+        shown = {k_: vals.get(k_) for k_ in sorted(set(ins) | set(outs)) if k_ in vals}
+        obs["mline"] = f"in={names(ins)} out={names(outs)} mdas={mdas} flow=- val=" + (
+            ",".join(f"{k_}={'nan' if v is None else rat(v)}" for k_, v in shown.items()) or "[]"
+        )
     except Exception as e:  # noqa: BLE001
         obs["exc"] = common.exc_class(e)
         obs["exc_text"] = repr(e)[:200]
@@ -1207,7 +1239,7 @@ def nested_fails(case, key=None):
     ys = [o for d in case["discs"] for o in d["out"]]
     if len(set(ys)) != len(ys):
         return []
-    if case["nest"]["kind"] == "premda":
+    if case["nest"]["kind"] in ("premda", "selfchain"):
         g = case["nest"]["group"]
         n = len(case["discs"])
         if not all(i < n for i in g) or not any(set(c) == set(g) for c in tarjan(n, edges_of(case["discs"]))):
@@ -1221,11 +1253,19 @@ def nested_fails(case, key=None):
 
 def _nested_worker(cases):
     common.quiet_gemseo()
-    return [(impl_observe_nested(c)["line"], nested_fails(c)) for c in cases]
+    out = []
+    for c in cases:
+        obs = impl_observe_nested(c)
+        out.append((obs["line"], nested_fails(c), obs.get("items"), obs.get("mline")))
+    return out
 
 
 def check_nested_cases(res: Result, cases, procs: int = 1) -> None:
-    for case, (il, bad) in zip(cases, _pmap(_nested_worker, cases, procs)):
+    impl = _pmap(_nested_worker, cases, procs)
+    # correspondence: the listing of items the harness formed, answered by the Lean model
+    with_line = [(i, nest_line(c, r[2])) for i, (c, r) in enumerate(zip(cases, impl)) if r[2] is not None and r[3] is not None]
+    model = dict(zip((i for i, _ in with_line), run_driver([l for _, l in with_line], procs)))
+    for i, (case, (il, bad, items, mline)) in enumerate(zip(cases, impl)):
         res.evaluations += 1
         res.count(f"nested:{case['nest']['kind']}")
         if len(case["discs"]) >= 2:
@@ -1236,6 +1276,49 @@ def check_nested_cases(res: Result, cases, procs: int = 1) -> None:
                 continue
             small = case  # the nesting refers to positions: reported as generated
             res.violate("oracle", key, msg, {"stream": "nested", "case": small, "impl": il})
+        if i not in model:
+            res.count("nested:no-model-line")
+            continue
+        ys = [o for d in case["discs"] for o in d["out"]]
+        if len(set(ys)) != len(ys):
+            res.count("nested:probe")
+            continue
+        m = model[i]
+        if same_chain_line(mline, m, exact=False):
+            res.traces_validated += 1
+            res.count("nested:model-agrees")
+            continue
+        res.disagreements += 1
+        res.count("nested:model-disagrees")
+        if bad or _have_any(res):
+            continue
+        line = dict(with_line)[i]
+        # the oracle (whole system at once) holds on this case: is the difference one of inner MDAs (a
+        # self-coupled item executed once / a pre-built MDA wrapped again) visible on another input?
+        found = False
+        if _search_allowed(res):
+            for nb in nested_neighbours(case):
+                b2 = nested_fails(nb)
+                if b2:
+                    key, msg = b2[0]
+                    res.violate("oracle", key, msg, {"stream": "nested", "case": nb, "impl": impl_observe_nested(nb)["line"]})
+                    found = True
+                    break
+        if not found:
+            res.violate(
+                "correspondence", "nested-model-vs-impl",
+                "the MDAChain over process disciplines and the Lean model disagree (grammars, inner MDAs or data) although the system's solution is returned",
+                {"stream": "nested", "case": case, "protocol_line": line, "impl": mline, "model": m, "correspondence": "Driver/C08.lean `nest`"},
+            )
+
+
+def nested_neighbours(case):
+    """Other external inputs for the same nested system (a wrong inner-MDA decision can be invisible at a
+    point where one sweep already is the solution)."""
+    for s in (1, 2, 3):
+        c = json.loads(json.dumps(case))
+        c["ext"] = {k: rat(Fraction(v) + Fraction(s * (j + 1), 2)) for j, (k, v) in enumerate(sorted(c["ext"].items()))}
+        yield c
 
 
 def load_corpus() -> list[dict[str, Any]]:
@@ -1258,7 +1341,8 @@ def run(ctx) -> Result:
         "permutations; chain stream: random well-posed affine systems (acyclic exact, cyclic contractive) x listing permutations x "
         "modes (MDOChain in listing order, MDOChain of the sequence, MDAChain Jacobi / Gauss-Seidel / parallel tasks / initialize_defaults) x "
         "histories (earlier executions, aliased input dict, process built twice, pre-built coupling structures); nested stream: a pre-built "
-        "inner MDA or an MDOChain as a discipline of the MDAChain (oracle only). "
+        "inner MDA, an MDOChain of a whole group of mutually dependent disciplines (a self-coupled process) or an MDOChain of a "
+        "prefix as a discipline of the MDAChain (oracle + Lean model `nestedEval`: grammars, inner MDAs, data). "
         "A graph case is non-trivial when it has >= 2 disciplines and >= 1 edge, a chain case when it has >= 2 disciplines; distinct by protocol line"
     )
     res.assumptions = [
@@ -1343,8 +1427,15 @@ def run(ctx) -> Result:
 
     # process disciplines nested in the MDAChain (oracle only)
     nested = []
-    for _ in range(600 if ctx.thorough else 40):
-        nested.append(gen_nested(rng, gen_system(rng, 6, contractive=True)))
+    for _ in range(900 if ctx.thorough else 80):
+        sys_ = gen_system(rng, 6, contractive=True)
+        if rng.chance(0.6):
+            # mostly systems with a group of mutually dependent disciplines (pre-built MDA / self-coupled chain)
+            for _retry in range(10):
+                if any(len(x) > 1 for x in tarjan(len(sys_["discs"]), edges_of(sys_["discs"]))):
+                    break
+                sys_ = gen_system(rng, 6, contractive=True)
+        nested.append(gen_nested(rng, sys_))
     check_nested_cases(res, nested, procs)
     return res
 
